@@ -124,7 +124,7 @@ func (lc *linCtx) of(v ssa.Value, depth int) (lin, bool) {
 
 func runC20(c *Ctx) {
 	P := c.P
-	c.Explanation = "Decides: (R-UNSAFE-BOUNDS) each of the unsafe 8-byte word accesses in package mbits lies inside the slice for every length: index expressions are reduced to linear forms over n = len(data) and q = n &^ 7 with the axioms 0 ≤ q ≤ n, q ≡ 0 (mod 8), n − q ≤ 7; induction variables get a congruence from their ±8 step and a one-sided bound from their initial value, the dominating loop guard supplies the other side; the obligations 0 ≤ i and i + 8 ≤ n are then decided by sign analysis of the linear forms. These are exactly the accesses Go's own bounds checks do not cover. (R-TRUNC-PREFIX) Trunc returns its argument or s[:h] with h reached from n only by decrements, under n < len(s), and every s[h−1] is guarded by h > 0 — so the result is a prefix of at most n bytes and cannot panic. (R-CMP-RANGE) every value CompareNatural returns is a result of cmp.Compare, hence in {−1,0,1}. (R-CLASS-AGREE) the two token parsers of CompareNatural classify characters with the same named predicate. Does NOT decide that the zero counts are right, UTF-8 validity, the 4-byte clause, or that CompareNatural is a total preorder."
+	c.Explanation = "Decides: (R-UNSAFE-BOUNDS) each of the unsafe 8-byte word accesses in package mbits lies inside the slice for every length: index expressions are reduced to linear forms over n = len(data) and q = n &^ 7 with the axioms 0 ≤ q ≤ n, q ≡ 0 (mod 8), n − q ≤ 7; induction variables get a congruence from their ±8 step and a one-sided bound from their initial value, the dominating loop guard supplies the other side; the obligations 0 ≤ i and i + 8 ≤ n are then decided by sign analysis of the linear forms. These are exactly the accesses Go's own bounds checks do not cover. (R-TRUNC-PREFIX) Trunc returns its argument or s[:h] with h reached from n only by decrements, under n < len(s), and every s[h−1] is guarded by h > 0 — so the result is a prefix of at most n bytes and cannot panic. (R-CMP-RANGE) every value CompareNatural returns is a result of cmp.Compare, hence in {−1,0,1}. (R-CLASS-AGREE) the two token parsers of CompareNatural classify characters with the same named predicate. Does NOT decide that the zero counts are right, UTF-8 validity of the result beyond the byte-class tests, the 4-byte clause, or that CompareNatural is a total preorder."
 	c.rule("R-UNSAFE-BOUNDS", 0, "every *uint64 access through unsafe.Pointer(&data[i]) satisfies 0 <= i and i+8 <= len(data)")
 	c.rule("R-TRUNC-PREFIX", 2, "Trunc returns s or s[:h], h ∈ closure{n, h'−c}, under n < len(s); every s[h−1] is dominated by h > 0")
 	c.rule("R-CLASS-AGREE", 0, "the token parsers CompareNatural alternates between classify bytes with the same predicate: what one refuses as a digit the other accepts as text (otherwise neither consumes and the comparison never ends)")
